@@ -170,11 +170,11 @@ Proof.
   destruct (String.eqb_spec s "\]") as [->|_]; [reflexivity|]. rewrite pr_one. reflexivity.
 Qed.
 
-Lemma factor_print x y s :
+Lemma factor_print (b : bool) x y s :
   (let tail := trim_prefix y x in
    if Nat.leb (String.length tail) 4 && Nat.eqb (rune_count tail) 1 then Some (x ++ tail ++ "?")
    else let head := trim_suffix y x in
-        if Nat.leb (String.length head) 4 && Nat.eqb (rune_count head) 1 then Some (head ++ "?" ++ x) else None) = Some s ->
+        if b && (Nat.leb (String.length head) 4 && Nat.eqb (rune_count head) 1) then Some (head ++ "?" ++ x) else None) = Some s ->
   pr_list (fst (if Nat.leb (String.length (trim_prefix y x)) 4 && Nat.eqb (rune_count (trim_prefix y x)) 1
                 then ([X OpConcat s (chars_of x ++ [X OpQuestion (trim_prefix y x ++ "?") [mk_char (trim_prefix y x)]])%list], 1%nat)
                 else ([X OpConcat s (X OpQuestion (trim_suffix y x ++ "?") [mk_char (trim_suffix y x)] :: chars_of x)], 1%nat))) = fst (o_hit s) /\
@@ -184,7 +184,7 @@ Lemma factor_print x y s :
 Proof.
   cbv zeta. destruct (Nat.leb (String.length (trim_prefix y x)) 4 && Nat.eqb (rune_count (trim_prefix y x)) 1).
   - intros H. inversion H. split; [|reflexivity]. cbn [fst o_hit]. rewrite pr_one, print_concat, pr_list_app, pr_chars_of, pr_one. reflexivity.
-  - destruct (Nat.leb (String.length (trim_suffix y x)) 4 && Nat.eqb (rune_count (trim_suffix y x)) 1); [|discriminate].
+  - destruct (b && (Nat.leb (String.length (trim_suffix y x)) 4 && Nat.eqb (rune_count (trim_suffix y x)) 1)); [|discriminate].
     intros H. inversion H. split; [|reflexivity]. cbn [fst o_hit]. rewrite pr_one, print_concat, pr_list_cons, pr_chars_of.
     unfold mk_char. cbn [print]. rewrite sapp_assoc'. reflexivity.
 Qed.
@@ -208,8 +208,8 @@ Proof.
         destruct args as [|a0 [|a1 [|? ?]]]; try discriminate Ef.
         destruct (String.eqb (concatLiteral true a0) (concatLiteral true a1)); [discriminate Ef|].
         destruct (Nat.ltb (String.length (concatLiteral true a1)) (String.length (concatLiteral true a0))).
-        -- exact (factor_print _ _ s Ef).
-        -- exact (factor_print _ _ s Ef).
+        -- exact (factor_print (negb true || true) (concatLiteral true a1) (concatLiteral true a0) s Ef).
+        -- exact (factor_print (negb true || false) (concatLiteral true a0) (concatLiteral true a1) s Ef).
       * destruct (wa_print args IHin) as [A B].
         change ((fix wa (l : list sx) : out := match l with [] => o_str "" | [x] => walk true x | x :: (_ :: _) as r => o_app (walk true x) (o_app (o_str "|") (wa r)) end) args) with (waW args).
         change ((fix wa (l : list sx) : list sx * nat := match l with [] => ([], 0%nat) | x :: r => let '(xs, sc) := walk_a true x in let '(rs, sc') := wa r in (seq_node xs :: rs, (sc + sc')%nat) end) args) with (waT args).
